@@ -155,6 +155,17 @@ def run_A(spec, acc):
                         acc.count("A_lookalike")
                         if key is not None:
                             check_reverse(p, r, key, prefix, acc)
+    if k == 2 % n:
+        # rules written in negated form whose next word begins with letters of the negation word (undo dhcp, no negotiation)
+        for prefix in PREFIXES:
+            for w in ("d", "nd", "o", "un", "n", "-", "r", "e"):
+                for tail in ("", " *", " a ~"):
+                    p = prefix + " " + w + tail
+                    for r in [prefix + " " + w, prefix + " " + w + " a", prefix + " " + w + " a b", w, w + " a", w + " a b", "x"]:
+                        key = check_match(p, r, acc)
+                        acc.count("A_negform")
+                        if key is not None:
+                            check_reverse(p, r, key, prefix, acc)
     if k == 0:
         # flag, ellipsis and named-group classes
         for p0 in patterns(2):
